@@ -521,5 +521,43 @@ theorem findNodeL_none (o : Opts) (st : Styles) (pre p : Path) :
       simp [renderList, findNodeL, findNode_none o st pre p s hs, findNodeL_none o st pre p r h]
 end
 
+/-! ### sessions: the view only depends on the latest options / description and the graph events -/
+
+def lastOpts (o : Opts) : List Event → Opts
+  | [] => o
+  | .options o' :: r => lastOpts o' r
+  | _ :: r => lastOpts o r
+
+def lastMach (m : Mach) : List Event → Mach
+  | [] => m
+  | .machine m' :: r => lastMach m' r
+  | _ :: r => lastMach m r
+
+def graphSteps (attr : Nat) : List Event → List Step
+  | [] => []
+  | .graph g :: r => g.resolve attr :: graphSteps attr r
+  | _ :: r => graphSteps attr r
+
+theorem session_foldl : ∀ (evs : List Event) (s : Session),
+    (∀ o, Event.options o ∈ evs → o.modelAttr = s.opts.modelAttr) →
+    evs.foldl Session.apply s =
+      { opts := lastOpts s.opts evs, mach := lastMach s.mach evs,
+        styles := (graphSteps s.opts.modelAttr evs).foldl applyStep s.styles }
+  | [], s, _ => rfl
+  | e :: r, s, h => by
+    have hr : ∀ o, Event.options o ∈ r → o.modelAttr = s.opts.modelAttr :=
+      fun o ho => h o (List.mem_cons_of_mem _ ho)
+    cases e with
+    | graph g =>
+      rw [List.foldl_cons, session_foldl r _ (by simpa [Session.apply] using hr)]
+      simp [Session.apply, lastOpts, lastMach, graphSteps]
+    | options o =>
+      have ho : o.modelAttr = s.opts.modelAttr := h o (List.mem_cons_self ..)
+      rw [List.foldl_cons, session_foldl r _ (by simpa [Session.apply, ho] using hr)]
+      simp [Session.apply, lastOpts, lastMach, graphSteps, ho]
+    | machine m =>
+      rw [List.foldl_cons, session_foldl r _ (by simpa [Session.apply] using hr)]
+      simp [Session.apply, lastOpts, lastMach, graphSteps]
+
 end Diagram
 end TM
